@@ -269,7 +269,7 @@ class Session:
         self.close()
 
     def call(self, variant, op, fmt=0, ext=0, lang=0, flags=0, args=(), what='', history=None, crash_is_violation=True,
-             hang_is_violation=False, exit_is_violation=False):
+             hang_is_violation=False, exit_is_violation=False, key_suffix=''):
         """Returns Reply, or None if the worker crashed/hung (recorded as violation or inconclusive).
         history: list of earlier request-json dicts needed to reproduce (for stateful sequences)."""
         d = self.driver(variant)
@@ -278,7 +278,7 @@ class Session:
             rep = d.call(op, fmt, ext, lang, flags, args)
         except D.Crash as c:
             if crash_is_violation:
-                self.r.violate(c.key, 'worker died (%s) %s' % (c.key, what), case, c.report)
+                self.r.violate(c.key + key_suffix, 'worker died (%s) %s' % (c.key, what), case, c.report)
             else:
                 self.r.inconclusive.append('crash %s %s' % (c.key, what))
             return None
